@@ -1,12 +1,13 @@
 """C02 -- verification verdicts equal the documented meaning of each constraint."""
 from runner.core import Context, finish
 
-MODULES = ['contracts.constraints']
+MODULES = ['contracts.constraints', 'contracts.pdcalc']
 PID = 'C02'
 
 
 def targets():
     import contracts.constraints as cc
+    import contracts.pdcalc
     from pyvc.contracts import REGISTRY
     return [i for i, c in REGISTRY.items() if not c.assumed and 'C02' in c.props]
 
